@@ -80,6 +80,15 @@ func (d *Dialer) Dial(ctx context.Context, endpoint string) (*Conn, error) {
 
 	}
 
+	// the timeout of the dialer covers the HEL/ACK handshake as well.
+	// Otherwise a peer which accepts the connection and stays silent
+	// blocks the caller for good.
+	if dl.Timeout > 0 {
+		var cancel context.CancelFunc
+		ctx, cancel = context.WithTimeout(ctx, dl.Timeout)
+		defer cancel()
+	}
+
 	c, err := dl.DialContext(ctx, "tcp", raddr.Host)
 	if err != nil {
 		return nil, err
@@ -278,6 +287,29 @@ func (c *Conn) Handshake(ctx context.Context, endpoint string) error {
 	if dl, ok := ctx.Deadline(); ok {
 		c.SetDeadline(dl)
 	}
+
+	// give up when the context is cancelled, but leave the
+	// connection alone once the handshake is over
+	var mu sync.Mutex
+	finished := false
+	done := make(chan struct{})
+	defer func() {
+		mu.Lock()
+		finished = true
+		mu.Unlock()
+		close(done)
+	}()
+	go func() {
+		select {
+		case <-ctx.Done():
+			mu.Lock()
+			if !finished {
+				c.SetDeadline(time.Now())
+			}
+			mu.Unlock()
+		case <-done:
+		}
+	}()
 
 	if err := c.Send("HELF", hel); err != nil {
 		return err
